@@ -321,7 +321,7 @@ def main():
         rfile = os.path.join(rep, '%s_%s_%s_%d.replay' % (prop, v['unit'], v['entry'], i))
         vals = v.get('inputs') or []
         with open(rfile, 'w') as f:
-            f.write('# property=%s unit=%s entry=%s kind=%s\n# %s\n' % (prop, v['unit'], v['entry'], v['kind'], v['msg'].replace('\n', ' ')))
+            f.write('# property=%s unit=%s entry=%s kind=%s tier=%s\n# %s\n' % (prop, v['unit'], v['entry'], v['kind'], tier, v['msg'].replace('\n', ' ')))
             for x in vals: f.write('%d\n' % x)
         status = 'unreplayed'
         if u.get('native', True) and v.get('inputs') is not None:
@@ -338,7 +338,17 @@ def main():
             except Exception as ex_:
                 status = 'replay-build-failed'; v['native_out'] = str(ex_)[-300:]
         elif not u.get('native', True):
+            # model environment (threads / kernel / file system): the counterexample is a choice + schedule sequence;
+            # it is re-executed concretely by the engine (no solver), which must reach the same verdict
             status = 'engine-replay-only'
+            try:
+                import symex
+                o2 = dict(u.get('opts', {}).get('all', {})); o2.update(u.get('opts', {}).get(tier, {})); o2['replay'] = vals
+                ex2 = symex.Executor(built[v['unit']]['mod'], o2)
+                ex2.explore(v['entry'], 120)
+                v['engine_replay'] = 'reproduced' if [x for x in ex2.violations if x['kind'] == v['kind']] else 'not reproduced by the concrete re-execution (reported all the same)'
+            except Exception as ex_:
+                v['engine_replay'] = 'failed: %s' % str(ex_)[-200:]
         v['replay'] = rfile; v['status'] = status
         if k is not None:
             known_hits.setdefault(k['id'], []).append(v)
@@ -403,7 +413,7 @@ def main():
                   solver_time_s=round(totals.get('solver_s', 0), 2), instructions_interpreted=int(totals.get('instrs', 0)),
                   bound_exceeded=int(totals.get('bound_exceeded', 0)), per_entry=per_entry,
                   translator_validation=validation, inconclusive=inconclusive,
-                  known_findings_reconfirmed=sorted(known_hits), violations_reported=[dict(unit=v['unit'], entry=v['entry'], kind=v['kind'], msg=v['msg'][:200], replay=v['replay'], status=v['status']) for v in confirmed],
+                  known_findings_reconfirmed=sorted(known_hits), violations_reported=[dict(unit=v['unit'], entry=v['entry'], kind=v['kind'], msg=v['msg'][:200], replay=v['replay'], status=v['status'], engine_replay=v.get('engine_replay')) for v in confirmed],
                   engine='E2 symbolic executor over clang-14 -O1 LLVM IR regenerated from /repo (python + z3 %s)' % _z3v(),
                   exhaustive=False))
     if hasattr(P, 'finish_evidence'): P.finish_evidence(ev, results)
@@ -425,7 +435,18 @@ def do_replay(P, prop, path):
     unit, entry = m.group(1), m.group(2)
     u = [x for x in P.UNITS if x['name'] == unit][0]
     vals = [int(x) for x in hdr if x and not x.startswith('#')]
-    defs = dict(u.get('defines', {}).get('all', {})); defs.update(u.get('defines', {}).get('quick', {}))
+    mt = re.search(r'tier=(\S+)', hdr[0]); rtier = mt.group(1) if mt else 'quick'
+    defs = dict(u.get('defines', {}).get('all', {})); defs.update(u.get('defines', {}).get(rtier, {}))
+    if not u.get('native', True):
+        # model environment (threads / kernel): the counterexample is a choice and schedule sequence, re-executed by the engine
+        import irparse, symex
+        ll = lower.lower('%s/%s_replay' % (prop, unit), [u['harness']] + u.get('sources', []), defs, u.get('flags'))
+        opts = dict(u.get('opts', {}).get('all', {})); opts.update(u.get('opts', {}).get(rtier, {})); opts['replay'] = vals; opts['verbose'] = 1
+        ex = symex.Executor(irparse.parse_file(ll), opts)
+        ex.explore(entry, 120)
+        for v in ex.violations[:3]: print('engine replay: %s: %s' % (v['kind'], v['msg']))
+        print('engine replay: %d violation(s)' % len(ex.violations))
+        return 1 if ex.violations else 0
     exe = lower.native('%s/%s_replay' % (prop, unit), [u['harness']] + u.get('native_sources', u.get('sources', [])), entry, defs, u.get('native_flags'))
     plain = path + '.vals'; write_replay(plain, vals)
     rc, out = native_replay(exe, plain); os.remove(plain)
